@@ -209,12 +209,9 @@ func randBits(rng *rand.Rand) int {
 func record(kind, out string) {
 	rng := ev.Rng()
 	w := ev.Create(out)
-	n := 500
+	n := 1200
 	if ev.Thorough() {
-		n = 6000
-		if kind == "mac" { // the integrity reference is ~3x more expensive per bit in TLC
-			n = 2500
-		}
+		n = 25000
 	}
 	var ops []string
 	if kind == "cipher" {
